@@ -496,6 +496,7 @@ func (ex *Exec) exitNormal(st *State, results []Val) {
 		o := ex.newObl(st, "vacuity", "exit_reachable", "false", "some return path is feasible", con.Props)
 		o.Canary = true
 	}
+	ex.applyGhostSets(st, env, con)
 	for _, cl := range con.clauses("ensures") {
 		g := ex.evalClause(env, cl, con)
 		o := ex.newObl(st, "ensures", cl.Label, g, cl.Src, ex.propsOf(cl, con))
@@ -945,4 +946,47 @@ func (ex *Exec) loopCut(st *State, li *loopInfo, pred *ssa.BasicBlock) bool {
 		st.measures[fmt.Sprintf("%d.%s", b.Index, cl.Label)] = st.define("measure", bvSort(64), mv.T)
 	}
 	return true
+}
+
+// applyGhostSets performs the ghost assignments of a contract (at normal return).
+func (ex *Exec) applyGhostSets(st *State, env *SpecEnv, con *Contract) {
+	defer func() {
+		if r := recover(); r != nil {
+			if se, ok := r.(specErr); ok {
+				panic(unsupported(fmt.Sprintf("contract %s ghost_set: %s", shortFuncName(con.Key), se.msg)))
+			}
+			panic(r)
+		}
+	}()
+	for _, cl := range con.clauses("ghost_set") {
+		rhs := env.eval(cl.Expr)
+		lhs := cl.Lhs
+		switch lhs.Kind {
+		case "ident":
+			g, ok := ex.db.Ghosts[lhs.Name]
+			if !ok {
+				specFail("ghost_set target %s is not a ghost variable", lhs.Name)
+			}
+			s, ty := env.ghostSort(g)
+			rhs = env.coerce(rhs, s, ty)
+			h := ex.ctx.heapDecl("GH!"+g.Name, s)
+			st.heap[h] = st.define(h, s, rhs.T)
+		case "index":
+			if lhs.Args[0].Kind != "ident" {
+				specFail("ghost_set target must be a ghost variable or an element of a ghost map")
+			}
+			g, ok := ex.db.Ghosts[lhs.Args[0].Name]
+			if !ok {
+				specFail("ghost_set target %s is not a ghost variable", lhs.Args[0].Name)
+			}
+			s, _ := env.ghostSort(g)
+			ks, vs, _ := arrayParts(s)
+			k := env.coerce(env.eval(lhs.Args[1]), ks, nil)
+			rhs = env.coerce(rhs, vs, nil)
+			h := ex.ctx.heapDecl("GH!"+g.Name, s)
+			st.hset(h, sx("store", st.hget(h), k.T, rhs.T))
+		default:
+			specFail("unsupported ghost_set target")
+		}
+	}
 }
